@@ -374,65 +374,58 @@ Section WithOracles.
     fold_left (fun acc p => alist_set acc (match alist_get fm (fst p) with Some k => k | None => fst p end) (snd p))
               doc [].
 
-  (* _get_enum_mapping: Some members = the enum class the document value is looked up in BY NAME;
-     Raise AttributeError = getattr(v, "_is_optional") on an AnyOf without a None option *)
-  Definition enum_target (tf : tfield) : res (option (pystr * list (pystr * pyval))) :=
+  (* _get_enum_mapping / _enum_lookup: the enum class whose members the document value of the field is looked up in,
+     and how: by member NAME, or by member VALUE for Enum(values=E, serialization_by_value=True).  The option
+     that is looked at (_leading_option): the field itself, the non-None option of AnyOf[T, None] / AnyOf[None, T],
+     the FIRST option of any other AnyOf that lists None.  None = the field has no entry in the mapping. *)
+  Definition etarget := (pystr * list (pystr * pyval) * bool)%type.
+
+  Definition enum_leaf_target (l : leaf) : option etarget :=
+    match l with LEnum cls ms byv => Some (cls, ms, byv) | _ => None end.
+
+  Definition enum_target (tf : tfield) : option etarget :=
     match tf with
-    | TLeaf (LEnum cls ms _) => Ok (Some (cls, ms))
-    | TOpt false (TLeaf (LEnum cls ms _)) => Ok (Some (cls, ms))
-    | TOpt false (TLeaf (LEnumLit _)) => Raise AttributeError      (* a literal Enum has no _enum_class *)
+    | TLeaf l => enum_leaf_target l
+    | TOpt _ (TLeaf l) => enum_leaf_target l
     | TUnion ls =>
-        if existsb is_none_leaf ls then
-          match ls with
-          | LEnum cls ms _ :: _ => Ok (Some (cls, ms))
-          | LEnumLit _ :: _ => Raise AttributeError
-          | _ => Ok None
-          end
-        else Raise AttributeError
-    | _ => Ok None
+        if existsb is_none_leaf ls then match ls with l :: _ => enum_leaf_target l | [] => None end else None
+    | _ => None
     end.
 
-  Fixpoint enum_targets (fs : list tfd) : res (list (pystr * (pystr * list (pystr * pyval)))) :=
-    match fs with
-    | [] => Ok []
-    | fd :: t =>
-        r <- enum_target (f_ty fd) ;; rest <- enum_targets t ;;
-        Ok (match r with Some x => (f_name fd, x) :: rest | None => rest end)
-    end.
+  Definition enum_targets (fs : list tfd) : list (pystr * etarget) :=
+    flat_map (fun fd => match enum_target (f_ty fd) with Some x => [(f_name fd, x)] | None => [] end) fs.
 
   (* _get_enum_mapping returns {**without_optionals, **optionals}: the plain Enum[E] fields come first, then
-     the Optional / AnyOf ones, each group in declaration order (a stable partition).  Only entries of the
-     second group can raise, so the exception is the one the declaration order gives. *)
+     the Optional / AnyOf ones, each group in declaration order (a stable partition). *)
   Definition is_plain_enum (tf : tfield) : bool :=
     match tf with TLeaf (LEnum _ _ _) => true | _ => false end.
   Definition enum_order (fs : list tfd) : list tfd :=
     filter (fun fd => is_plain_enum (f_ty fd)) fs ++ filter (fun fd => negb (is_plain_enum (f_ty fd))) fs.
 
-  Fixpoint apply_enums (ts : list (pystr * (pystr * list (pystr * pyval)))) (inp acc : list (pystr * pyval))
+  (* mapping[value]: E[name] / E._enum_by_value[value] *)
+  Definition enum_member (ms : list (pystr * pyval)) (byv : bool) (v : pyval) : option (pystr * pyval) :=
+    if byv then find (fun p => py_eq (snd p) v) ms
+    else match v with
+         | PStr n => match alist_get ms n with Some x => Some (n, x) | None => None end
+         | _ => None
+         end.
+
+  Fixpoint apply_enums (ts : list (pystr * etarget)) (inp acc : list (pystr * pyval))
     : res (list (pystr * pyval)) :=
     match ts with
     | [] => Ok acc
-    | (k, (cls, ms)) :: t =>
+    | (k, (cls, ms, byv)) :: t =>
         match alist_get inp k with
         | Some v =>
             if py_truthy v then
               if negb (py_hashable v) then Raise TypeError
-              else match v with
-                   | PStr n => match alist_get ms n with
-                               | Some x => apply_enums t inp (alist_set acc k (PEnum cls n x))
-                               | None => Raise KeyError
-                               end
-                   | _ => Raise KeyError
+              else match enum_member ms byv v with
+                   | Some (n, x) => apply_enums t inp (alist_set acc k (PEnum cls n x))
+                   | None => Raise KeyError
                    end
             else apply_enums t inp acc
         | None => apply_enums t inp acc
         end
-    end.
-
-  Definition prim_set_plain (f : field) : bool :=
-    match f with
-    | FNumber KInteger _ _ | FNumber KFloat _ _ | FString _ | FBoolean | FNone => true
-    | _ => false
     end.
 
   (* field.items.deserialize applied to the WHOLE list (the Array branch of _remap_input) *)
@@ -444,37 +437,35 @@ Section WithOracles.
     | LPrim _ => Ok v
     end.
 
-  Definition mk_set (r : list pyval) : res (option pyval) :=
-    if all_hashable r then Ok (Some (PSet false (set_dedup r))) else Raise TypeError.
+  Definition mk_set (r : list pyval) : res pyval :=
+    if all_hashable r then Ok (PSet false (set_dedup r)) else Raise TypeError.
 
-  (* one entry of _remap_input for a non-None value; Ok None = the key is dropped *)
-  Definition remap_plain (tc : pystr -> pyval -> res pyval) (tf : tfield) (v : pyval) : res (option pyval) :=
+  (* one entry of _remap_input for a non-None value (every key of the input is kept) *)
+  Definition remap_plain (tc : pystr -> pyval -> res pyval) (tf : tfield) (v : pyval) : res pyval :=
     match tf with
-    | TRef c => w <- tc c v ;; Ok (Some w)
-    | TLeaf (LSer id _) => w <- sdeser id v ;; Ok (Some w)
-    | TLeaf _ => Ok (Some v)
+    | TRef c => tc c v
+    | TLeaf (LSer id _) => sdeser id v
+    | TLeaf _ => Ok v
     | TArray (TRef c) =>
         match v with
-        | PList l => r <- mapM (tc c) l ;; Ok (Some (PList r))
+        | PList l => r <- mapM (tc c) l ;; Ok (PList r)
         | _ => Raise Unmodelled
         end
-    | TArray (TLeaf l) => if leaf_is_ser l then w <- leaf_deser_whole l v ;; Ok (Some w) else Ok (Some v)
-    | TArray _ => Ok (Some v)
-    | TSet (TLeaf (LPrim f)) =>
-        if prim_set_plain f then match v with PList l => mk_set l | _ => Raise Unmodelled end
-        else Ok None
+    | TArray (TLeaf l) => if leaf_is_ser l then leaf_deser_whole l v else Ok v
+    | TArray _ => Ok v
+    | TSet (TLeaf (LPrim _)) => match v with PList l => mk_set l | _ => Raise Unmodelled end
     | TSet (TLeaf l) =>
         match v with PList xs => r <- mapM (reg_leaf l) xs ;; mk_set r | _ => Raise Unmodelled end
     | TSet (TRef c) =>
         match v with PList xs => r <- mapM (tc c) xs ;; mk_set r | _ => Raise Unmodelled end
-    | TSet _ => Ok None
-    | _ => Ok (Some v)
+    | TSet _ => match v with PList l => mk_set l | _ => Raise Unmodelled end     (* the final else: set(v) *)
+    | _ => Ok v
     end.
 
-  (* _extract_non_nonefield_from_optional returns fields[0] in both branches *)
-  Definition remap_field (tc : pystr -> pyval -> res pyval) (tf : tfield) (v : pyval) : res (option pyval) :=
+  (* _extract_non_nonefield_from_optional: the option that is not None, wherever None is listed *)
+  Definition remap_field (tc : pystr -> pyval -> res pyval) (tf : tfield) (v : pyval) : res pyval :=
     match tf with
-    | TOpt nf f => remap_plain tc (if nf then none_leaf else f) v
+    | TOpt _ f => remap_plain tc f v
     | _ => remap_plain tc tf v
     end.
 
@@ -488,9 +479,7 @@ Section WithOracles.
         else
           match find_tfd (t_fields c) k with
           | None => r <- remap_input tc c t ;; Ok ((k, v) :: r)
-          | Some fd =>
-              o <- remap_field tc (f_ty fd) v ;; r <- remap_input tc c t ;;
-              Ok (match o with Some w => (k, w) :: r | None => r end)
+          | Some fd => w <- remap_field tc (f_ty fd) v ;; r <- remap_input tc c t ;; Ok ((k, w) :: r)
           end
     end.
 
@@ -517,8 +506,7 @@ Section WithOracles.
                     (* get_flat_resolved_mapper calls mapper.get: a list of mappers has no such method *)
                     _ <- match t_mapper c with MapList => Raise AttributeError | _ => Ok tt end ;;
                     let inp := rename_doc c doc in
-                    ts <- enum_targets (enum_order (t_fields c)) ;;
-                    upd <- apply_enums ts inp inp ;;
+                    upd <- apply_enums (enum_targets (enum_order (t_fields c))) inp inp ;;
                     m <- match lv with
                          | Nested => remap_input (trusted_cls n Nested) c upd
                          | NotNested => Ok upd
